@@ -178,6 +178,25 @@ theorem C05_program_any_budget (env : Env) (fuel k : Nat) (ctm : Matrix) (res : 
       (Interp.runPage env (fuel + k) ctm res streams).1.fuelOk = true :=
   C05_program env (fuel + k) ctm res streams is gl hparse (C05_fuel_stable env fuel k ctm res is gl h)
 
+/-- **A stated budget always suffices**: when every form has its own resource dictionary naming
+only earlier forms of the table (an acyclic `Do` graph), a budget of `env.forms.length` — linear in
+the size of the document — is never exhausted, for any page program at all (in or outside the
+domain of the text model). -/
+theorem C05_budget_suffices (env : Env) (hr : Ranked env) (fuel : Nat) (hfuel : env.forms.length ≤ fuel)
+    (ctm : Matrix) (res : Res) (streams : List (List Tok)) :
+    (Interp.runPage env fuel ctm res streams).1.fuelOk = true := by
+  unfold Interp.runPage
+  rw [C05_split]
+  refine (execToks_inv env (Interp.runForm env fuel) res ?_ streams.flatten (MState.init ctm res) rfl rfl).2
+  intro n j fm hj hfm st0 hst0 hres0
+  have hjl : j < env.forms.length := by
+    rcases Nat.lt_or_ge j env.forms.length with h | h
+    · exact h
+    · rw [List.getElem?_eq_none h] at hfm; simp at hfm
+  refine runForm_budget env hr j fm st0 fuel hfm ?_ hst0 (by omega)
+  obtain ⟨r, hr1, _⟩ := hr j fm hfm
+  rw [hres0, hr1]; rfl
+
 /-! ## Non-vacuity: the hypotheses are met by non-trivial instances -/
 
 private def exFont : Font := ⟨"VfD0", 32, [250, 500, 504, 508], 300, -200⟩
@@ -220,6 +239,16 @@ example : (TextModel.runPage exEnv 3 MATRIX_IDENTITY exRes exProg).map (fun l =>
 /-- An instruction with an ill-typed operand that meets the hypotheses of `C05_illtyped`. -/
 example : sig (GS.init MATRIX_IDENTITY) Op.Td = some [Ty.num, Ty.num] ∧
     wellTyped [Ty.num, Ty.num] [Obj.name "x", Obj.num 5] = false := by decide
+
+/-- The example form table is ranked (hypothesis of `C05_budget_suffices`). -/
+example : Ranked exEnv := by
+  intro i fm h
+  match i, h with
+  | 0, h =>
+    simp only [exEnv, List.getElem?_cons_zero, Option.some.injEq] at h
+    subst h
+    exact ⟨⟨[("F1", 0)], []⟩, rfl, by intro n j hj; simp [lookup] at hj⟩
+  | k + 1, h => simp [exEnv] at h
 
 /-- The initial states are related (hypothesis `hR` of `C05_step` is satisfiable). -/
 example : R exEnv (MState.init MATRIX_IDENTITY exRes) ⟨GS.init MATRIX_IDENTITY, [], none, exRes⟩ :=
